@@ -2921,8 +2921,14 @@ def eye(N: int, M: int | None = None, k: int = 0,  # noqa: N803
     if not isinstance(k, INT_CLASSES):
         raise ValueError(f"k must be int, got {type(k)}.")
 
-    return IndexLambda(expr=prim.If(parse(f"(_1 - _0) == {k}"), 1, 0),
-                       shape=(N, M), dtype=dtype, bindings=constantdict({}),
+    dtype = np.dtype(dtype)
+
+    # (typed literals, as in full(): an untyped 1 / 0 inlined into a math
+    # function leaves loopy without a type to resolve the function for)
+    return IndexLambda(expr=prim.If(parse(f"(_1 - _0) == {k}"),
+                                    dtype.type(1), dtype.type(0)),
+                       shape=(N, M), dtype=dtype,
+                       bindings=constantdict({}),
                        tags=_get_default_tags(),
                        non_equality_tags=_get_created_at_tag(),
                        axes=_get_default_axes(2),
